@@ -73,6 +73,10 @@ Inductive outcome (A : Type) := Rejected (s : stage) | Accepted (a : A).
 Arguments Rejected {A}. Arguments Accepted {A}.
 
 Section Accessor.
+  (* [fixed] = true: the accessor with fixes/C16.patch (a continuation record must repeat the account
+     data of the partial record before it; BuildMerkleTrie refuses a stream that ended inside an
+     account); false: the accessor as it was (finding c16_partial_record_data_unbound) *)
+  Variable fixed : bool.
   Variable H : bytes -> bytes.
   Variable tot_of : bytes -> counts.                       (* Total{AppParams,AppLocalStates,AssetParams,Assets} of an account *)
   Variable flags_of : bytes -> bool * bool * bool * bool.  (* IsApp, IsAsset, IsOwning, IsHolding of a resource *)
@@ -91,7 +95,7 @@ Section Accessor.
     a_version : N;
     a_blkround : N;
     a_totals : bytes;
-    a_expect : option bytes;            (* expectingSpecificAccount / nextExpectedAccount *)
+    a_expect : option (bytes * bytes);  (* expectingSpecificAccount: nextExpectedAccount, nextExpectedAccountData *)
     a_cnt : counts;                     (* acctResCnt *)
     a_accts : list (bytes * bytes);     (* catchpointbalances, insertion order *)
     a_res : list (bytes * N * bytes);   (* catchpointresources *)
@@ -104,13 +108,17 @@ Section Accessor.
   Definition a_init : astate := mkA false 0 0 [] None counts_zero [] [] [] [] [] [128] [].
 
   (* the loop over the records of a chunk: "received incomplete chunks" / resource counter checks *)
-  Fixpoint check_records (bals : list brec) (expect : option bytes) (cnt : counts) : option (option bytes * counts) :=
+  Fixpoint check_records (bals : list brec) (expect : option (bytes * bytes)) (cnt : counts)
+    : option (option (bytes * bytes) * counts) :=
     match bals with
     | [] => Some (expect, cnt)
     | r :: bals' =>
-        if match expect with Some a => negb (beqb (b_addr r) a) | None => false end then None else
+        if match expect with
+           | Some (a, e) => negb (beqb (b_addr r) a) || (fixed && negb (beqb (b_enc r) e))
+           | None => false
+           end then None else
         let cnt' := fold_left (fun c e => count_res c (snd e)) (b_res r) cnt in
-        if b_more r then check_records bals' (Some (b_addr r)) cnt'
+        if b_more r then check_records bals' (Some (b_addr r, b_enc r)) cnt'
         else if counts_eqb cnt' (tot_of (b_enc r)) then check_records bals' None counts_zero
         else None
     end.
@@ -223,6 +231,7 @@ Section Accessor.
     match process_all f a_init with
     | None => Rejected StProcess
     | Some a =>
+        if fixed && match a_expect a with Some _ => true | None => false end then Rejected StTrie else
         match build_trie (a_hashes a) t_empty with
         | None => Rejected StTrie
         | Some t =>
